@@ -31,7 +31,8 @@ BOUNDED_RULE = (
     "on DefaultApplicationConfig or a bare ApplicationConfig with generated global options/arguments); every command "
     "carries 0-3 arguments and 0-3 options dealt from shuffled decks of ALL valid flag kinds (argument: "
     "required/optional x multi x 5 type words x nullable; option: 4 value modes x 5 type words x nullable x "
-    "3 name preferences x short name present/absent), descriptions dealt from {None, short, long with newlines}, "
+    "3 name preferences x short name present/absent), descriptions dealt from {None, short, long with newlines} (every third "
+    "tree: from {short, long} only), "
     "defaults from {None, str, int, float, bool, list}; every page (application + every enabled command) x width "
     "x ANSI/plain is one case, keyed by (hash of the tree, page path, width, ansi); a case is non-trivial when the "
     "page has to list at least one command, argument or option of the generated tree"
@@ -127,6 +128,8 @@ class Gen:
         self.arg_deck = Deck(argument_kinds(), rng)
         self.opt_deck = Deck(option_kinds(), rng)
         self.desc_deck = Deck(DESC_POOL, rng)
+        self.desc_deck_full = Deck([d for d in DESC_POOL if d is not None], rng)
+        self.all_described = False
         self.cdesc_deck = Deck(CMD_DESC_POOL, rng)
         self.help_deck = Deck(HELP_POOL, rng)
         self.sdef_deck = Deck(_default_pool(False), rng)
@@ -136,6 +139,9 @@ class Gen:
     def _id(self):
         self.n += 1
         return self.n
+
+    def _desc(self):
+        return (self.desc_deck_full if self.all_described else self.desc_deck).draw()
 
     def _args(self, count, state):
         """state: dict(opt=has optional, multi=has multi, names=set) of the inherited format"""
@@ -158,7 +164,7 @@ class Gen:
             default = None
             if not required:
                 default = (self.mdef_deck if multi else self.sdef_deck).draw()
-            out.append({"name": name, "flags": flags, "desc": self.desc_deck.draw(), "default": default})
+            out.append({"name": name, "flags": flags, "desc": self._desc(), "default": default})
             if multi:
                 state["multi"] = True
             if not required:
@@ -182,7 +188,7 @@ class Gen:
             default = None
             if not no_value:
                 default = (self.mdef_deck if multi else self.sdef_deck).draw()
-            out.append({"long": long_name, "short": short, "flags": flags, "desc": self.desc_deck.draw(),
+            out.append({"long": long_name, "short": short, "flags": flags, "desc": self._desc(),
                         "default": default, "value_name": self.rng.choice(["...", "value", "n"])})
         return out
 
@@ -213,6 +219,9 @@ class Gen:
     def tree(self, index, max_depth=None, fan=None):
         r = self.rng
         self.n = 0
+        # every third tree describes all its elements, so that the other clauses are exercised on trees
+        # that do not depend on the handling of missing descriptions
+        self.all_described = index % 3 == 2
         max_depth = max_depth or r.choice([1, 2, 2, 3, 3])
         fan = fan or r.choice([1, 2, 3, 3])
         default_cfg = index % 2 == 0
